@@ -73,6 +73,14 @@ def jobs(tier):
         out.append(dict(base, name='Memory::Copy<unsigned int>.%s.bounded' % cfg, fn='Memory_Copy__unsigned_int', roots=['Qentem::Memory::Copy<unsigned int>'],
                         specs={'Memory_Copy__unsigned_int': sp},
                         clause='byte copy in the %s build gives the same result as the scalar build (bounded: sizes 0..%d)' % (cfg, N)))
+        if tier == 'quick':
+            # a few large sizes as well (the thorough tier covers every size up to 320): block counts around the 16-register mark, where an unrolled
+            # block loop would start to matter
+            L = [256, 272, 288, 304, 320]
+            out.append(dict(base, name='Memory::Copy<unsigned int>.%s.bounded.large' % cfg, fn='Memory_Copy__unsigned_int', roots=['Qentem::Memory::Copy<unsigned int>'],
+                            specs={'Memory_Copy__unsigned_int': sp}, sweep=('size', L), harness_K=320, harness_unwind=322, sweep_par=5, weight=6,
+                            bounded='sizes %s bytes (one CBMC run per size, symbolic contents, %s block loop + scalar tail)' % (', '.join(map(str, L)), cfg),
+                            clause='byte copy in the %s build gives the same result as the scalar build (bounded: sizes %s)' % (cfg, ', '.join(map(str, L)))))
         sz = zero_spec('')
         sz.pop('loops')
 
